@@ -1267,6 +1267,8 @@ def main(outfile):
     py2lean_timerblk.main_timerblk(os.path.join(os.path.dirname(outfile), 'TranslatedTimerBlk.lean'), sys.modules[__name__])
     import py2lean_blkctor                                          # separate module: constructors, name rules, circuit registry (C14)
     py2lean_blkctor.main_blkctor(os.path.join(os.path.dirname(outfile), 'TranslatedBlkCtor.lean'), write_if_changed)
+    import py2lean_handlers                                      # separate module: SBlock.__init_subclass__, the handler tables (C11)
+    py2lean_handlers.main_handlers(os.path.join(os.path.dirname(outfile), 'TranslatedHandlers.lean'), sys.modules[__name__])
 
 if __name__ == '__main__':
     main(sys.argv[1])
